@@ -21,3 +21,14 @@ package carv1
 
 //@ func HeaderSize
 //@   ensures size [C01,C07,C12,C14]: err == nil && result0 == vsize(enclen(h)) + enclen(h)
+
+//@ func (*CarHeader).containsRoot
+//@   loop[0] invariant none_so_far [C12]: forall(j, 0, rangeindex + 1, !(h.Roots[j] == root))
+//@   ensures def [C12]: result == exists(j, 0, len(h.Roots), h.Roots[j] == root)
+
+//@ func (CarHeader).Matches
+//@   loop[0] invariant all_so_far [C12]: forall(i, 0, rangeindex + 1, exists(j, 0, len(other.Roots), other.Roots[j] == h.Roots[i]))
+//@   ensures version_and_count [C12]: result ==> h.Version == other.Version && len(h.Roots) == len(other.Roots)
+//@   ensures single_root [C12]: h.Version == other.Version && len(h.Roots) == 1 && len(other.Roots) == 1 ==> result == (h.Roots[0] == other.Roots[0])
+//@   ensures every_root_present [C12]: result ==> forall(i, 0, len(h.Roots), exists(j, 0, len(other.Roots), other.Roots[j] == h.Roots[i]))
+//@   ensures mismatch_rejected [C12]: h.Version != other.Version || len(h.Roots) != len(other.Roots) ==> !result
